@@ -11,6 +11,8 @@ package main
 // steps:  A<ms>  queue a delay for the next account-balance answer of this subscriber
 //         R<ms>  queue a delay for the next rating answer
 //         U<v>   online update asking for v units (rating group 1, nothing used), deadline 14 s
+//         F<v>   final report of v used units (FINAL trigger: the rating group is settled in debit mode - one rating
+//                request for the price, one account-balance request that refunds / debits the difference), deadline 14 s
 //         W<ms>  wait
 //         N<k>   k prompt online updates (for the connection count)
 //         C      sample connections / goroutines
@@ -22,6 +24,8 @@ package main
 //
 // observation: one token per step that observes something
 //         U -> u=<status>:<grant|->:<cost>:<resDelta>:<ccr seq consumed|0|?>:<elapsed ms>:<done>
+//              a trailing :<k> = k account-balance requests made during the update were still unanswered when it returned
+//         F -> f=<status>:<elapsed ms>:<done>:<k>   (k as above)
 //         C -> c=<established connections to the two peers>:<goroutines above baseline, bucketed>:<the same, raw>:<go-diameter watchdog goroutines alive>:<goroutines running (or started by) an answer handler HandleSUA/HandleCCA>:<goroutines inside a request handler of the rating / account-balance server, not counting those the script itself keeps asleep>:<sockets of the process on the Diameter ports in any state but LISTEN, above the baseline>
 //         D<k> -> from now on every answer reaches the CHF k times (through a relay, see relay.go)
 //
@@ -296,6 +300,39 @@ func runPeer(line string, t []string) string {
 	var out []string
 	seq := 1
 	ue, _ := self.ChfUeFindBySupi(supi)
+	// account-balance requests received by the server since request number nBefore that it has not answered yet
+	pendingSince := func(nBefore int) int {
+		sc.mu.Lock()
+		defer sc.mu.Unlock()
+		k := 0
+		for _, l := range sc.ccrs {
+			if l.seq > nBefore && !l.done {
+				k++
+			}
+		}
+		return k
+	}
+	finalReport := func(used int) string {
+		sc.mu.Lock()
+		nBefore := len(sc.ccrs)
+		sc.mu.Unlock()
+		r := onlineUpdate(supi, sid, seq, 0)
+		r.MultipleUnitUsage[0].RequestedUnit = nil
+		r.MultipleUnitUsage[0].UsedUnitContainer[0].TotalVolume = int32(used)
+		r.Triggers = []models.ChfConvergedChargingTrigger{trigCodes["F"]}
+		b, _ := json.Marshal(r)
+		seq++
+		t0 := time.Now()
+		ch := make(chan *httptest.ResponseRecorder, 1)
+		go func() { ch <- doHTTP("POST", ccPrefix+"/chargingdata/"+escapePath(sid)+"/update", b) }()
+		select {
+		case w := <-ch:
+			el := time.Since(t0)
+			return fmt.Sprintf("f=%d:%d:1:%d", w.Code, int(el/time.Millisecond), pendingSince(nBefore))
+		case <-time.After(14 * time.Second):
+			return "f=-:14000:0:0"
+		}
+	}
 	update := func(vol int) string {
 		resBefore := ue.ReservedQuota[1]
 		sc.mu.Lock()
@@ -334,7 +371,7 @@ func runPeer(line string, t []string) string {
 				}
 				sc.mu.Unlock()
 			}
-			return fmt.Sprintf("u=%d:%s:%d:%d:%s:%d:1", w.Code, grant, ue.UnitCost[1], delta, who, int(el/time.Millisecond))
+			return fmt.Sprintf("u=%d:%s:%d:%d:%s:%d:1:%d", w.Code, grant, ue.UnitCost[1], delta, who, int(el/time.Millisecond), pendingSince(nBefore))
 		case <-time.After(14 * time.Second):
 			return "u=-:-:-:-:-:14000:0"
 		}
@@ -397,7 +434,17 @@ func runPeer(line string, t []string) string {
 				continue
 			}
 			r := update(arg)
-			if strings.HasSuffix(r, ":0") {
+			if strings.HasPrefix(r, "u=-:") {
+				hung = true
+			}
+			out = append(out, r)
+		case 'F':
+			if hung {
+				out = append(out, "f=skipped")
+				continue
+			}
+			r := finalReport(arg)
+			if strings.HasPrefix(r, "f=-:") {
 				hung = true
 			}
 			out = append(out, r)
@@ -405,7 +452,7 @@ func runPeer(line string, t []string) string {
 			vol := 1 << 20
 			for i := 0; i < arg && !hung; i++ {
 				vol += 64
-				if r := update(vol); strings.HasSuffix(r, ":0") {
+				if r := update(vol); strings.HasPrefix(r, "u=-:") {
 					hung = true
 				}
 			}
@@ -501,11 +548,24 @@ func genPeer(o genOpts, w *bufio.Writer) {
 	scen(fmt.Sprintf("A%d U100 W3000 U228 U484 C", late))       // late answer arrives while nothing is in progress
 	scen(fmt.Sprintf("A%d A2500 U100 U228 U484 C", late))       // late answer of #1 arrives while #2 waits for its own
 	scen(fmt.Sprintf("A%d U100 W500 U228 W3000 U484 C", never)) // lost answer
+	// C19: the settlement of a final report (debit mode) is a request of the operation like any other: the operation waits
+	// for its answer (slow, late, lost), and the next reservation of the subscriber acts on its own answer
+	scen("U100 A1500 F10 C")
+	scen("U100 A1500 A2500 F10 U228 C")                  // settlement answer slow, the next reservation's slower
+	scen(fmt.Sprintf("U100 A%d F10 U228 W3000 C", late)) // settlement answer later than the timeout
+	scen("U100 R1500 A800 F10 A1200 U228 F20 C")
 	// the same for the rating peer (three rating requests per update)
 	scen(fmt.Sprintf("R%d U100 U228 C", late))
 	scen(fmt.Sprintf("R0 R0 R%d U100 W3000 U228 U484 C", late))
 	scen(fmt.Sprintf("R%d R2500 U100 U228 U484 C", late))
 	scen(fmt.Sprintf("R0 R%d R0 R0 R2500 U100 U228 U484 C", late))
+	// final reports with random delays of the settlement answer and of the next reservation's answer (the first update is
+	// prompt, so that a reservation exists and the settlement is a refund, and the price enquiry is answered in time: the rating
+	// group is back in reserve mode afterwards, whatever becomes of the settlement request)
+	for i := 0; i < 2+o.n/8; i++ {
+		scen(fmt.Sprintf("U100 R%d A%d A%d F%d U228 W%d C", r.pick(0, 0, 800, 1500), r.pick(0, 800, 1500, 2500, late), r.pick(0, 800, 2500, late),
+			r.pick(0, 1, 10, 99), r.pick(0, 2000)))
+	}
 	// a peer that accepts the connection and is slow to complete the set-up (TLS handshake), for either client:
 	// C18: the slow dial is the last one of the update (nothing re-uses the client afterwards), the count is taken after
 	// the set-up has had time to complete; several such requests in a row; the first dial of an update slow
